@@ -104,6 +104,20 @@ int __wrap_posix_spawn(pid_t *pid, const char *path, const posix_spawn_file_acti
 	spawn_log[k].rfd = last_pipe[0] >= 0 ? dup(last_pipe[0]) : -1;
 	return 0;
 }
+/* realloc always moves the block and the old one is overwritten before it is freed: whoever keeps pointers into a block across its
+ * growth (intrusive list or trie nodes in a growing array, say) reads junk at once instead of depending on the allocator's mood */
+#include <malloc.h>
+void *__real_realloc(void *p, size_t n);
+void *__wrap_realloc(void *p, size_t n)
+{
+	if (p == NULL || n == 0) return __real_realloc(p, n);
+	size_t old = malloc_usable_size(p);
+	void *q = malloc(n); if (q == NULL) return NULL;
+	memcpy(q, p, old < n ? old : n);
+	memset(p, 0xA5, old);
+	free(p);
+	return q;
+}
 /* waitpid: the daemon leaves the collecting of its children to libev's child watchers.  A child that has exited and whose exit
  * has not been dispatched yet is lost to its watcher when somebody else collects it: it leaves the pending set for good
  * (pending = 2: gone, the watcher never fires) and the call is logged. */
